@@ -613,6 +613,10 @@ class RoiSubsetStateNd(SubsetState):
 
         return result
 
+    def copy(self):
+        return RoiSubsetStateNd(atts=list(self._atts), roi=self._roi,
+                                pretransform=self._pretransform)
+
 
 class RoiSubsetState(RoiSubsetStateNd):
     """
